@@ -50,7 +50,7 @@ func buildBatch(n int, mk func(i int) *ir.Request, add scratch.AddOpts, race boo
 			firstErr = err
 			return
 		}
-		items[i] = &rtItem{req: req, file: req.FileByName(req.Generate[0]), it: it, descs: ds}
+		items[i] = &rtItem{req: req, file: req.FileByName(req.PrimaryName()), it: it, descs: ds}
 	})
 	if firstErr != nil {
 		bt.Close()
